@@ -22,8 +22,9 @@ TRUSTED_STRAT = [
 MANIFEST = {
     "text": "Two tied models. (1) Kernel model (supervision: ReportAbnormal, suspension at delivery time, escalation, victim and supervisor "
             "strategies, Restart/Stop/Resume/Escalate as IMMEDIATE scripted directives) replayed in lockstep against the real actor system "
-            "with failures injected by scripted panics and ReportAbnormal in user-message, OnLaunch and lifecycle handlers. Proved: a suspended "
-            "mailbox never hands a user message to the actor, a suspension is lifted only by the directive (Resume, completed restart, "
+            "with failures injected by scripted panics and ReportAbnormal in user-message, OnLaunch and lifecycle handlers. A Resume decision is a QUEUED request (SResumeReq) that the victim applies itself and only while alive (fix 925aa8b). "
+            "Proved: a suspended "
+            "mailbox never hands a user message to the actor, a suspension (with no resume request pending for the address) is lifted only by the directive (Resume, completed restart, "
             "termination), registry well-formedness; the trace-level statement 'no user message between failure and decision' is checked "
             "per run (monitor C04:user-message-before-decision + step-by-step equality with the model). "
             "(2) Strategy layer (OneForOne with restart limit and back-off timers, AccidentState, canned Restart/Stop/Resume): executable "
@@ -40,7 +41,11 @@ MANIFEST = {
             "with ~1 600 sequences (30 000 + every sequence of length <= 6 over 5 operations, thorough) on virtual time (synctest) and compares "
             "every Supervisor call, its timestamp and AccidentCount() with the model inside Coq; Go-side monitors C04:strategy:* restate "
             "the property (restart missing/duplicated/early/late/after-limit, stop missing, sibling affected by differential rerun of each "
-            "victim alone, count wrong).",
+            "victim alone, count wrong). "
+            "(3) no model: a real-time, truly parallel stress family (harness/cmd/c04esc: 2-8 supervisors deciding Resume on OTHER goroutines than "
+            "their 4-24 failing workers, ~130 000 messages / ~55 000 accidents per run; monitors C04:esc:resume-lost, user-message-before-decision, "
+            "failure-not-decided, worker-terminated-under-resume, shutdown-hangs) as search oracle for races between the failing step and the decision "
+            "that the lock-step harness cannot schedule.",
     "note": "Partial. The two models are tied to the code separately, not to each other: that the kernel calls Record/OnPolicyDecision/Solved "
             "as the strategy harness does, and that a Restart arriving after a delay (instead of immediately) leaves the kernel theorems "
             "intact, is argued by reading actor_context.go, not proved. The VALUE of the back-off delay (exponential growth, jitter band) is "
